@@ -7,11 +7,12 @@
    stores absolute addresses in the stack frames (mjStackFrame.pbase / .pstack) and in d->pbase.
 
    The booleans [gd] ([gs]: stackallocinternal, [gt]: thread-lock branch of stackalloc, [ga]:
-   mj_arenaAllocByte) select between the code as it is in the tree at the time of writing
-   ([false]: sizes are not compared with the available bytes before the size_t arithmetic) and
-   the same code with the size guard of the repair proposed for the defect exhibited by
-   C19_wrap_refuted ([true]).  The check decides on every run, per site, which of the two the
-   working tree implements (by replaying the witness) and ties that one. *)
+   mj_arenaAllocByte) select the code variant: [true] is the code as it is now (the requested size
+   is compared with the available bytes before the size_t arithmetic that could wrap; /repo commit
+   e39ca69d3, which repaired the defect exhibited by C19_unguarded_wrap_refuted); [false] is the
+   code before that repair.  The check decides on every run, per site, by replaying the wrap
+   witnesses, which of the two the working tree implements, reports a violation if it is the
+   unguarded one, and ties the variant found. *)
 From Coq Require Import ZArith List Bool.
 Import ListNotations.
 Open Scope Z_scope.
